@@ -433,15 +433,6 @@ func (_this *Writer) WriteBigFloat(value *big.Float) {
 
 	var buff [64]byte
 	used := value.Append(buff[:0], 'x', -1)
-	if len(used) > 3 {
-		end := len(used) - 4
-		if used[end] == 'p' &&
-			// +-
-			used[end+2] == '0' &&
-			used[end+3] == '0' {
-			used = used[:end]
-		}
-	}
 
 	_this.WriteBytesNotLF(used)
 }
@@ -464,6 +455,12 @@ func (_this *Writer) WriteDecimalFloat(value compact_float.DFloat) {
 		return
 	}
 
+	// Write the reduced form: the text must not depend on how many trailing
+	// zeros the coefficient happens to carry.
+	for value.Coefficient != 0 && value.Coefficient%10 == 0 && !value.IsSpecial() {
+		value.Coefficient /= 10
+		value.Exponent++
+	}
 	_this.WriteStringNotLF(value.Text('g'))
 }
 
@@ -484,8 +481,12 @@ func (_this *Writer) WriteBigDecimalFloat(value *apd.Decimal) {
 			_this.WritePosInfinity()
 		}
 	default:
+		// Write the reduced form: the text must not depend on how many
+		// trailing zeros the coefficient happens to carry.
+		var reduced apd.Decimal
+		reduced.Reduce(value)
 		var buff [64]byte
-		used := value.Append(buff[:0], 'g')
+		used := reduced.Append(buff[:0], 'g')
 		_this.WriteBytesNotLF(used)
 	}
 }
